@@ -1915,3 +1915,14 @@ V(id='c03-neg-inf-even-power', prop='C03', file='mpmath/libmp/libmpf.py',
   old="            if n > 0: return [finf, fninf][n & 1]", new="            if n > 0: return fninf", expect='fire:S-R3:mpf_pow_int')
 V(id='c03-zero-to-zero', prop='C03', file='mpmath/libmp/libmpf.py',
   old="    n = int(n)\n    if n == 0: return fone", new="    n = int(n)\n    if n == 0: return mpf_pos(s, prec, rnd) if not s[1] else fone", expect='fire:S-R3:mpf_pow_int')
+
+# ---- C05 G-R5 ----
+V(id='c05-nan-equal-to-itself', prop='C05', file='mpmath/libmp/libmpf.py',
+  old="def mpf_eq(s, t):\n    \"\"\"Test equality of two raw mpfs. This is simply tuple comparison\n    unless either number is nan, in which case the result is False.\"\"\"\n    if not s[1] or not t[1]:\n        if s == fnan or t == fnan:\n            return False",
+  new="def mpf_eq(s, t):\n    \"\"\"Test equality of two raw mpfs. This is simply tuple comparison\n    unless either number is nan, in which case the result is False.\"\"\"\n    if not s[1] or not t[1]:\n        if s == fnan and t != fnan:\n            return False",
+  expect='fire:G-R5:mpf_eq')
+V(id='c05-le-nan-guard-dropped', prop='C05', file='mpmath/libmp/libmpf.py',
+  old="def mpf_le(s, t):\n    if s == fnan or t == fnan:\n        return False\n", new="def mpf_le(s, t):\n", expect='fire:G-R5:mpf_le')
+V(id='c05-cmp-inf-vs-inf', prop='C05', file='mpmath/libmp/libmpf.py',
+  old="def mpf_ge(s, t):\n    if s == fnan or t == fnan:\n        return False\n    return mpf_cmp(s, t) >= 0", new="def mpf_ge(s, t):\n    if s == fnan or t == fnan:\n        return False\n    return mpf_cmp(s, t) > 0",
+  expect='fire:G-R5:mpf_ge')
